@@ -50,7 +50,7 @@ def gen_attrs(rng, w, rich=True):
             if name == '{...p}':
                 kind = 'bool'
         if kind == 'class':
-            name = 'class'
+            name = 'class' if rng.random() < 0.85 else rng.choice(['CLASS', 'Class'])        # (attribute names of an HTML document are case-insensitive)
         if kind == 'angle':
             # template expressions and generics: a <...> pair is one attribute name or value, also when glued to the tag's own >
             if rng.random() < 0.5:
@@ -66,7 +66,7 @@ def gen_attrs(rng, w, rich=True):
             w.add(equals(rng))
             if kind == 'class':
                 q = rng.choice(['"', '"', "'", '', '{'])
-                body = rng.choice(['a', 'a b', 'foo  bar', ' a b ', 'a\tb\nc', '', 'x-1 y_2 z', 'a  ', 'foo\u3000bar baz', 'a\x0bb c', 'p\u2028q', 'x\x85y z', 'a\xa0b', 'é ü\u2003ö', 'a\rb', ' '.join('c%d' % k for k in range(rng.randint(5, 14)))]) if q else rng.choice(['a', 'foo-bar', 'item', 'a-very-long-class-name'])
+                body = rng.choice(['a', 'a b', 'foo  bar', ' a b ', 'a\tb\nc', '', 'x-1 y_2 z', 'a  ', 'foo\u3000bar baz', 'a\x0bb c', 'f\x0cg h', 'p\u2028q', 'x\x85y z', 'a\xa0b', 'é ü\u2003ö', 'a\rb', ' '.join('c%d' % k for k in range(rng.randint(5, 14)))]) if q else rng.choice(['a', 'foo-bar', 'item', 'a-very-long-class-name'])
                 val = q + body + ('}' if q == '{' else q)
             elif kind == 'dq':
                 val = '"%s"' % rng.choice(['a > b', '', 'x/y', '</div>', '<b>', "it's", 'a=b c', ' ', '/>', 'é ü', '{x}', '-->', '/a.js?type=min', 'text/x-template', 'type=text/html',
@@ -229,15 +229,16 @@ def self_check(src, recs):
 
 
 def class_tokens(src, a):
-    "ground truth for C17: ranges of whitespace-separated tokens inside the unquoted class value"
+    """ground truth for C17: ranges of the tokens inside the unquoted class value.  A class attribute is a set of space-separated tokens, and
+    "space" is HTML's ASCII white space: TAB, LF, FF, CR, SPACE (a no-break space is an ordinary character of a class name)"""
     s, e = a['inner']
     toks = []
     i = s
     while i < e:
-        while i < e and src[i] in ' \t\n\r\xa0':
+        while i < e and src[i] in ' \t\n\r\x0c':
             i += 1
         j = i
-        while j < e and src[j] not in ' \t\n\r\xa0':
+        while j < e and src[j] not in ' \t\n\r\x0c':
             j += 1
         if j > i:
             toks.append((i, j))
